@@ -21,6 +21,9 @@ abse() * factor(units()), factors from the published tables, mc/refmodels/quanti
   logarithmic    sums / differences of levels in dB, dBm, Np, B, cNp (same unit on both sides, different
                  uncertainties): the result's uncertainty is the sum of the operands' uncertainties
   Decimal        sums / differences with a Decimal magnitude on the left, on the right or on both sides
+  typed errors   the uncertainty given as int / float / np.float64 / np.float32 / np.int64, through the
+                 constructor and through the abse()/rele() setters, in the conversion and sum clauses
+  ones           the values 1 and -1 (exact and uncertain) on both sides of products and quotients
   zero values    operands whose value is exactly 0 (scalar / array element) take part in construction, sums, exact
                  factors, conversions and rebase; a nan uncertainty there is a failure (it is neither the sum nor the
                  scaled error); rele() is compared only on non-zero elements (undefined at 0)
@@ -53,7 +56,7 @@ NSHARDS = 32
 
 VALUES = [3.0, -3.0, 0.5, -0.25, [2.0, -4.0], [0.5, 3.0]]
 ERRORS = [None, ["abse", 0.1], ["rele", 10.0]]
-FACTORS = [2, -3, 0.5, -0.25]
+FACTORS = [2, -3, 0.5, -0.25, 1, -1, 1.0]
 # thorough tier: larger alphabets (uncertainties stay well below the values, where "first order" is meaningful)
 VALUES_T = VALUES + [7.5, -1e3, 40.0, [1e3, -7.5]]      # arrays all of length 2 (mixed shapes: not demanded)
 ERRORS_T = ERRORS + [["abse", 0.02], ["rele", 1.0]]
@@ -91,6 +94,16 @@ LOG_ERRORS = [None, ["abse", 0.1], ["abse", 0.5], ["rele", 10.0]]
 DEC_VALUES = ["3", "-0.25", "0.5"]
 DEC_ERRORS = [None, ["abse", 0.1], ["abse", 0.5]]
 DEC_FLOAT_VALUES = [3.0, -0.25]
+# the uncertainty itself given as int / float / NumPy scalar / Decimal, through the constructor and the setters
+TYPED_VALUES = [30.0, [20.0, -40.0]]
+TYPED_ERRORS = [[k, x, t, via] for via in ("ctor", "setter")
+                for k, x, t in (("abse", 3, "int"), ("abse", 3, "float"), ("abse", 3, "np.float64"),
+                                ("abse", 3, "np.float32"), ("abse", 3, "np.int64"),
+                                # a Decimal uncertainty on a float value cannot even be read with rele() (Decimal/float
+                                # is a TypeError in Python): outside the statement, left out
+
+                                ("rele", 10, "int"), ("rele", 10, "np.int64"), ("rele", 10, "np.float32"))]
+ONE_VALUES = [1.0, -1.0]          # both sides of products / quotients, exact and uncertain
 _LEN = [U_M, U_CM, U_KM, (("m", "m", 1),), (("", "in", 1),), (("", "ft", 1),), (("", "au", 1),)]
 _ENE = [U_J, U_ERG, U_KGM2S2, (("", "eV", 1),), (("k", "cal", 1),)]
 CONVERSIONS_T = CONVERSIONS + [(a, b) for grp in (_LEN, _ENE) for a in grp for b in grp
@@ -142,12 +155,27 @@ def _mk(o):
         from decimal import Decimal
         v = Decimal(v)                      # Decimal magnitude, written as text in the case
     kw = {}
+    setter = None
     if o["e"] is not None:
-        kw[o["e"][0]] = o["e"][1]
+        e = o["e"]
+        val = e[1]
+        if len(e) > 2:                       # ["abse"|"rele", number, numeric type, "ctor"|"setter"]
+            if e[2] == "Decimal":
+                from decimal import Decimal
+                val = Decimal(str(val))
+            elif e[2].startswith("np."):
+                val = getattr(np, e[2][3:])(val)
+            else:
+                val = dict(int=int, float=float)[e[2]](val)
+        if len(e) > 3 and e[3] == "setter":
+            setter = (e[0], val)
+        else:
+            kw[e[0]] = val
     u = _uj(o["u"])
-    if u:
-        return Quantity(v, R.render(u), **kw)
-    return Quantity(v, **kw)
+    q = Quantity(v, R.render(u), **kw) if u else Quantity(v, **kw)
+    if setter:
+        getattr(q, setter[0])(setter[1])     # q.abse(x) / q.rele(x): the in-place setters
+    return q
 
 
 def _mk_factor(case):
@@ -258,6 +286,9 @@ def _tags(case):
             t.append("value-negative")
         if o["e"] is not None:
             t.append(o["e"][0] + "-input")
+            if len(o["e"]) > 2:
+                t.append("error-type:" + o["e"][2])
+                t.append("error-via:" + o["e"][3])
         if _vals(o).ndim:
             t.append("array")
         if np.any(_vals(o) == 0):
@@ -507,11 +538,37 @@ def _cases(tier):
             for a in _operands_z(ua):
                 for b in _operands_z(ub):
                     yield dict(k="bin", op=op, a=a, b=b)
+    def _ones(u):
+        for v in ONE_VALUES:
+            for e in errors:
+                yield _opnd(v, e, u)
+
     for op, pairs in (("mul", MUL_UNITS), ("div", MUL_UNITS)):
         for ua, ub in pairs:
             for a in _operands(ua):
                 for b in _operands(ub):
                     yield dict(k="bin", op=op, a=a, b=b)
+            # the values 1 and -1 (exact and uncertain) on either side, and on both
+            for a in _ones(ua):
+                for b in list(_operands(ub)) + list(_ones(ub)):
+                    yield dict(k="bin", op=op, a=a, b=b)
+            for b in _ones(ub):
+                for a in _operands(ua):
+                    yield dict(k="bin", op=op, a=a, b=b)
+    # uncertainty of another numeric type / set through abse() and rele(): conversion and sum clauses
+    typed = [(v, e) for v in TYPED_VALUES for e in TYPED_ERRORS]
+    for u, v in CONVERSIONS:
+        for x, e in typed:
+            yield dict(k="to", a=_opnd(x, e, u), v=_ju(v))
+            yield dict(k="to", a=_opnd(x, e, u), v=_ju(v), tf="BaseUnits")
+    for op in ("add", "sub"):
+        for ua, ub in SUM_UNITS:
+            for x, e in typed:
+                if e[2] == "Decimal":
+                    continue      # Decimal + float uncertainties cannot be added in Python: outside the statement
+                for y, f in ((3.0, None), (0.5, ["abse", 0.1]), (-3.0, ["rele", 10.0])):
+                    yield dict(k="bin", op=op, a=_opnd(x, e, ua), b=_opnd(y, f, ub))
+                    yield dict(k="bin", op=op, a=_opnd(y, f, ua), b=_opnd(x, e, ub))
     # levels in logarithmic units: the same unit on both sides, different uncertainties
     for u in LOG_UNITS:
         for va in LOG_LEFT:
@@ -596,6 +653,11 @@ def run_shard(desc):
                 sh.add_extra("logarithmic_sums", 1)
             if case["a"].get("dec") or case["b"].get("dec"):
                 sh.add_extra("decimal_sums", 1)
+        if case["k"] == "to" and label.startswith("ok:conversion") and len(case["a"]["e"] or []) > 2:
+            sh.add_extra("typed_conversions", 1)
+        if case["k"] == "bin" and case["op"] == "mul" and label.startswith("ok:") and any(
+                not _vals(case[x]).ndim and abs(float(_vals(case[x]))) == 1.0 for x in ("a", "b")):
+            sh.add_extra("ones_products", 1)
         if case.get("same") and label == "ok:first-order":
             sh.add_extra("same_object_first_order", 1)
         if case["k"] == "to" and uncertain and label.startswith("ok:conversion") and np.any(_vals(case["a"]) == 0):
@@ -639,6 +701,8 @@ def finish(total, tier, seed):
         "zero-valued uncertain operands converted": total.extra.get("zero_value_conversions", 0) + tot("to:bad"),
         "logarithmic sums": total.extra.get("logarithmic_sums", 0) + tot("bin:add:bad"),
         "sums with a Decimal magnitude": total.extra.get("decimal_sums", 0) + tot("bin:add:bad"),
+        "typed uncertainties converted": total.extra.get("typed_conversions", 0) + tot("to:bad"),
+        "products with a factor one": total.extra.get("ones_products", 0) + tot("bin:mul:bad"),
         "powers": tot("pow:"),
         "negations": tot("neg:"),
     }
